@@ -1,11 +1,17 @@
-(* Catching up across a fork (property C11), part 5: the premises of [sync_fork_catches_up] (Proofs/Sync2Main.v) are
-   satisfiable - two concrete forks of the verification network, every premise discharged by evaluation.
-     [example_higher_peer]   our chain: genesis + 10 blocks with equal timestamps (cumulative difficulty 53);
-                             peer: genesis + 40 blocks 15 s apart (cumulative difficulty 85).  Fork at genesis; the peer's
-                             branch becomes heavier than ours at height 25 <= 10 + 51.
-     [example_deep_fork]     our chain: genesis + 100 blocks 15 s apart; peer: genesis + 70 blocks with equal
-                             timestamps, heavier but NOT higher; the fork (at genesis) is deeper than the 50 blocks the
-                             "heavier but not higher" request covers: the blocks below are reached as parents of orphans. *)
+(* Catching up across a fork (property C11), part 5: the premises of [sync_fork_catches_up_chains] (Proofs/Sync2Reach.v)
+   are satisfiable - concrete forks of the verification network, every premise discharged by evaluation (the nodes are
+   reachable states: fed from genesis).
+     [example_higher_peer]      our chain: genesis + 10 blocks with equal timestamps (cumulative difficulty 53);
+                                peer: genesis + 40 blocks 15 s apart (cumulative difficulty 85).  Fork at genesis; the
+                                peer's branch becomes heavier than ours at height 25.
+     [example_deep_fork]        our chain: genesis + 100 blocks 15 s apart; peer: genesis + 70 blocks with equal
+                                timestamps, heavier but NOT higher; the fork (at genesis) is deeper than the 50 blocks the
+                                "heavier but not higher" request covers: the blocks below are reached as parents of orphans.
+     [example_long_light_fork]  REGRESSION of the repaired livelock 1 (Proofs/Sync2Stuck.v, KNOWN_FINDINGS
+                                C11-long-light-fork): our 14 blocks (cumulative difficulty 145) against the peer's 75
+                                (155; still 135 at height 65 = 14 + 51).  With the old by-height logic no block was stored
+                                after the peer's block of height 65; now the node catches up.
+     [example_long_fork_control] its control: our chain holds only the first 13 of the 14 blocks (112 < 133 at height 64). *)
 From Coq Require Import Arith Lia.
 From Virel Require Import Lib.Config Lib.U64 Lib.AMap Model.Ledger Model.Node Model.Sync Spec.Chain
   Proofs.ForkChoice Proofs.ChainHeights Proofs.Sync Proofs.Sync2Refine Proofs.Sync2Main Proofs.Sync2Reach Proofs.Sync2Stuck Gen.Params.
@@ -19,13 +25,18 @@ Definition ex_checks (B Pn : node) (theirs : list block) : bool :=
   forallb (fun b => match get_block B (b_hash b) with None => true | Some _ => false end) theirs &&
   acc_chain_b cfg_verifnet 7 B theirs &&
   forallb (fun j => top_cd (apply_ext cfg_verifnet 7 B (firstn j theirs)) <? top_cd Pn) (seq 0 (length theirs)) &&
-  forallb (fun j => let n := apply_ext cfg_verifnet 7 B (firstn j theirs) in
-                    negb (top_h n <? top_h Pn) || (N.of_nat (1 + j) <=? top_h n + parallel_blocks cfg_verifnet + 1))
-          (seq 0 (length theirs)) &&
   forallb (fun b => match prevalidate_block cfg_verifnet 0 b k_now with Ok _ => true | _ => false end) theirs.
+
+Lemma k_feed_reachable bs : N.of_nat (length bs) < two64 - 1 -> NInv 1 (k_feed bs) /\ MInv (k_feed bs).
+Proof.
+  intros Hl. unfold k_feed.
+  apply (reachable_MInv cfg_verifnet 7 0 k_genesis k_n0); [exact k_n0_ok|reflexivity|reflexivity|].
+  rewrite map_length. exact Hl.
+Qed.
 
 Lemma example_instance ours theirs :
   N.of_nat (length ours) < two64 - 1 -> N.of_nat (length theirs) < two64 - 1 ->
+  N.of_nat (length (blocks (k_feed ours)) + length theirs) <= two64 ->
   main_chain (k_feed theirs) = [k_genesis] ++ theirs -> theirs <> [] ->
   get_block (k_feed ours) 1 = Some k_genesis ->
   top_h (k_feed theirs) + parallel_blocks cfg_verifnet + 2 < two64 ->
@@ -37,14 +48,13 @@ Lemma example_instance ours theirs :
     (forall b, In b (k_genesis :: theirs) -> get_block (sy_node s') (b_hash b) = Some b) /\
     top (sy_node s') = top (k_feed theirs).
 Proof.
-  intros Hl1 Hl2 Hmc Hne Hg Hbound Hcd H. unfold ex_checks in H.
-  apply andb_prop in H. destruct H as (H & Q6). apply andb_prop in H. destruct H as (H & Q5).
-  apply andb_prop in H. destruct H as (H & Q4). apply andb_prop in H. destruct H as (H & Q3).
-  apply andb_prop in H. destruct H as (Q1 & Q2).
-  rewrite forallb_forall in Q1, Q2, Q4, Q5, Q6.
-  destruct (k_feed_inv ours Hl1) as (HFB & _). destruct (k_feed_inv theirs Hl2) as (_ & HCP).
-  destruct (sync_fork_catches_up cfg_verifnet 7 0 1 (k_feed theirs) (k_feed ours) [k_genesis] theirs HCP HFB Hmc
-              ltac:(discriminate) Hne) with (s := sync0 (k_feed ours)) as (bound & Hbd).
+  intros Hl1 Hl2 Hl3 Hmc Hne Hg Hbound Hcd H. unfold ex_checks in H.
+  apply andb_prop in H. destruct H as (H & Q6). apply andb_prop in H. destruct H as (H & Q4).
+  apply andb_prop in H. destruct H as (H & Q3). apply andb_prop in H. destruct H as (Q1 & Q2).
+  rewrite forallb_forall in Q1, Q2, Q4, Q6.
+  destruct (k_feed_inv theirs Hl2) as (_ & HCP). destruct (k_feed_reachable ours Hl1) as (HN & HM).
+  destruct (sync_fork_catches_up_chains cfg_verifnet 7 0 1 (k_feed theirs) (k_feed ours) [k_genesis] theirs HCP
+              HN HM Hl3 Hmc ltac:(discriminate) Hne) with (s := sync0 (k_feed ours)) as (bound & Hbd).
   - intros b Hb. specialize (Q1 b Hb). destruct (N.eqb_spec (b_hash b) 0); [discriminate|assumption].
   - intros b [<-|[]]. exact Hg.
   - intros b Hb. specialize (Q2 b Hb). destruct (get_block (k_feed ours) (b_hash b)); [discriminate|reflexivity].
@@ -52,10 +62,6 @@ Proof.
   - intros j Hj. apply N.ltb_lt. apply Q4. apply in_seq. lia.
   - exact Hbound.
   - vm_compute. discriminate.
-  - intros j Hj. cbn zeta. intros Hlt. specialize (Q5 j ltac:(apply in_seq; lia)). cbn zeta in Q5.
-    apply orb_prop in Q5. destruct Q5 as [Q5|Q5].
-    + apply Bool.negb_true_iff in Q5. apply N.ltb_ge in Q5. lia.
-    + apply N.leb_le in Q5. cbn [length]. exact Q5.
   - reflexivity.
   - reflexivity.
   - reflexivity.
@@ -66,6 +72,11 @@ Proof.
     destruct (Hbd k_now Hpre) as (Hk1 & _). destruct (Hk1 k Hk) as (E1 & E2 & E3 & _). cbn zeta in *.
     split; [exact E1|]. split; [|exact E3]. intros b Hin. apply E2. rewrite Hmc. exact Hin.
 Qed.
+
+Ltac example_by_evaluation ours theirs :=
+  apply (example_instance ours theirs);
+    [vm_compute; reflexivity|vm_compute; reflexivity|vm_compute; discriminate|vm_compute; reflexivity|discriminate|
+     vm_compute; reflexivity|vm_compute; reflexivity|vm_compute; reflexivity|vm_compute; reflexivity].
 
 Definition e_ours1 : list block := Eval vm_compute in k_build 10 k_n0 k_genesis 1001 0 0 [].
 Definition e_theirs1 : list block := Eval vm_compute in k_build 40 k_n0 k_genesis 2001 0 15000 [].
@@ -77,10 +88,7 @@ Theorem example_higher_peer :
     sy_node s' = apply_ext cfg_verifnet 7 (k_feed e_ours1) e_theirs1 /\
     (forall b, In b (k_genesis :: e_theirs1) -> get_block (sy_node s') (b_hash b) = Some b) /\
     top (sy_node s') = top (k_feed e_theirs1).
-Proof.
-  split; [vm_compute; reflexivity|].
-  apply example_instance; try (vm_compute; reflexivity). discriminate.
-Qed.
+Proof. split; [vm_compute; reflexivity|]. example_by_evaluation e_ours1 e_theirs1. Qed.
 
 Definition e_ours2 : list block := Eval vm_compute in k_build 100 k_n0 k_genesis 1001 0 15000 [].
 Definition e_theirs2 : list block := Eval vm_compute in k_build 70 k_n0 k_genesis 2001 0 0 [].
@@ -92,71 +100,29 @@ Theorem example_deep_fork :
     sy_node s' = apply_ext cfg_verifnet 7 (k_feed e_ours2) e_theirs2 /\
     (forall b, In b (k_genesis :: e_theirs2) -> get_block (sy_node s') (b_hash b) = Some b) /\
     top (sy_node s') = top (k_feed e_theirs2).
-Proof.
-  split; [vm_compute; reflexivity|]. split; [vm_compute; reflexivity|].
-  apply example_instance; try (vm_compute; reflexivity). discriminate.
-Qed.
+Proof. split; [vm_compute; reflexivity|]. split; [vm_compute; reflexivity|]. example_by_evaluation e_ours2 e_theirs2. Qed.
 
-(* ---- with the premise REACH' on the two chains (Proofs/Sync2Reach.v) ---- *)
-Definition ex_checks' (B Pn : node) (theirs : list block) : bool :=
-  forallb (fun b => negb (b_hash b =? 0)) (k_genesis :: theirs) &&
-  forallb (fun b => match get_block B (b_hash b) with None => true | Some _ => false end) theirs &&
-  acc_chain_b cfg_verifnet 7 B theirs &&
-  forallb (fun j => top_cd (apply_ext cfg_verifnet 7 B (firstn j theirs)) <? top_cd Pn) (seq 0 (length theirs)) &&
-  match nth_error (k_genesis :: theirs) (N.to_nat (top_h B + parallel_blocks cfg_verifnet + 1)) with
-  | Some o => top_cd B <? b_cd o | None => true end &&
-  forallb (fun b => match prevalidate_block cfg_verifnet 0 b k_now with Ok _ => true | _ => false end) theirs.
-
-Lemma k_feed_NInv bs : N.of_nat (length bs) < two64 - 1 -> Sync2Reach.NInv 1 (k_feed bs).
-Proof.
-  intros Hl. unfold k_feed.
-  apply (ChainHeights.reachable_invariants cfg_verifnet 7 0 k_genesis k_n0); [exact k_n0_ok|reflexivity|reflexivity|].
-  rewrite map_length. exact Hl.
-Qed.
-
-Lemma example_instance_chains ours theirs :
-  N.of_nat (length ours) < two64 - 1 -> N.of_nat (length theirs) < two64 - 1 ->
-  N.of_nat (length (blocks (k_feed ours)) + length theirs) <= two64 ->
-  main_chain (k_feed theirs) = [k_genesis] ++ theirs -> theirs <> [] ->
-  get_block (k_feed ours) 1 = Some k_genesis ->
-  top_h (k_feed theirs) + parallel_blocks cfg_verifnet + 2 < two64 ->
-  top_cd (k_feed ours) < top_cd (k_feed theirs) ->
-  ex_checks' (k_feed ours) (k_feed theirs) theirs = true ->
+(* the repaired livelock 1: 14 blocks (145) against 75 blocks (155; 135 at height 65) *)
+Theorem example_long_light_fork :
+  (top (k_feed k_ours), top_h (k_feed k_ours), top_cd (k_feed k_ours)) = (1014, 14, 145) /\
+  (top (k_feed k_theirs), top_h (k_feed k_theirs), top_cd (k_feed k_theirs)) = (2075, 75, 155) /\
+  map b_cd (firstn 1 (skipn 64 k_theirs)) = [135] /\
   exists bound, forall k, (bound <= k)%nat ->
-    let s' := srounds cfg_verifnet 7 0 (k_feed theirs) k_now k (sync0 (k_feed ours)) in
-    sy_node s' = apply_ext cfg_verifnet 7 (k_feed ours) theirs /\
-    (forall b, In b (k_genesis :: theirs) -> get_block (sy_node s') (b_hash b) = Some b) /\
-    top (sy_node s') = top (k_feed theirs).
+    let s' := srounds cfg_verifnet 7 0 (k_feed k_theirs) k_now k (sync0 (k_feed k_ours)) in
+    sy_node s' = apply_ext cfg_verifnet 7 (k_feed k_ours) k_theirs /\
+    (forall b, In b (k_genesis :: k_theirs) -> get_block (sy_node s') (b_hash b) = Some b) /\
+    top (sy_node s') = top (k_feed k_theirs).
 Proof.
-  intros Hl1 Hl2 Hl3 Hmc Hne Hg Hbound Hcd H. unfold ex_checks' in H.
-  apply andb_prop in H. destruct H as (H & Q6). apply andb_prop in H. destruct H as (H & Q5).
-  apply andb_prop in H. destruct H as (H & Q4). apply andb_prop in H. destruct H as (H & Q3).
-  apply andb_prop in H. destruct H as (Q1 & Q2).
-  rewrite forallb_forall in Q1, Q2, Q4, Q6.
-  destruct (k_feed_inv theirs Hl2) as (_ & HCP).
-  destruct (Sync2Reach.sync_fork_catches_up_chains cfg_verifnet 7 0 1 (k_feed theirs) (k_feed ours) [k_genesis] theirs HCP
-              (k_feed_NInv ours Hl1) Hl3 Hmc ltac:(discriminate) Hne) with (s := sync0 (k_feed ours)) as (bound & Hbd).
-  - intros b Hb. specialize (Q1 b Hb). destruct (N.eqb_spec (b_hash b) 0); [discriminate|assumption].
-  - intros b [<-|[]]. exact Hg.
-  - intros b Hb. specialize (Q2 b Hb). destruct (get_block (k_feed ours) (b_hash b)); [discriminate|reflexivity].
-  - apply acc_chain_b_sound. exact Q3.
-  - intros j Hj. apply N.ltb_lt. apply Q4. apply in_seq. lia.
-  - exact Hbound.
-  - vm_compute. discriminate.
-  - intros o Ho. cbn [app] in Ho. rewrite Ho in Q5. apply N.ltb_lt. exact Q5.
-  - reflexivity.
-  - reflexivity.
-  - reflexivity.
-  - left. exact Hcd.
-  - exists bound. intros k Hk. cbn zeta.
-    assert (Hpre : forall b, In b (tl ([k_genesis] ++ theirs)) -> prevalidate_block cfg_verifnet 0 b k_now = Ok tt).
-    { intros b Hb. specialize (Q6 b Hb). destruct (prevalidate_block cfg_verifnet 0 b k_now) as [[]| |]; [reflexivity|discriminate|discriminate]. }
-    destruct (Hbd k_now Hpre) as (Hk1 & _). destruct (Hk1 k Hk) as (E1 & E2 & E3 & _). cbn zeta in *.
-    split; [exact E1|]. split; [|exact E3]. intros b Hin. apply E2. rewrite Hmc. exact Hin.
+  split; [vm_compute; reflexivity|]. split; [vm_compute; reflexivity|]. split; [vm_compute; reflexivity|].
+  example_by_evaluation k_ours k_theirs.
 Qed.
 
-(* the control of livelock 1: our chain holds only the first 13 of the 14 blocks (cumulative difficulty 112); the peer's
-   block of height 13 + 51 = 64 has cumulative difficulty 133 > 112: the node catches up with the 75-block chain *)
+(* with the number of rounds: [sim] reaches the peer's tip within 600 rounds (the fuel Check/C11.v gives it) *)
+Theorem example_long_light_fork_sim :
+  top (sy_node (fst (sim cfg_verifnet 7 0 600 (k_feed k_theirs) (sync0 (k_feed k_ours)) [] k_now))) = 2075.
+Proof. vm_compute. reflexivity. Qed.
+
+(* its control: our chain holds only the first 13 of the 14 blocks *)
 Definition e_ours3 : list block := Eval vm_compute in firstn 13 k_ours.
 
 Theorem example_long_fork_control :
@@ -167,9 +133,4 @@ Theorem example_long_fork_control :
     sy_node s' = apply_ext cfg_verifnet 7 (k_feed e_ours3) k_theirs /\
     (forall b, In b (k_genesis :: k_theirs) -> get_block (sy_node s') (b_hash b) = Some b) /\
     top (sy_node s') = top (k_feed k_theirs).
-Proof.
-  split; [vm_compute; reflexivity|]. split; [vm_compute; reflexivity|].
-  apply (example_instance_chains e_ours3 k_theirs);
-    [vm_compute; reflexivity|vm_compute; reflexivity|vm_compute; discriminate|vm_compute; reflexivity|discriminate|
-     vm_compute; reflexivity|vm_compute; reflexivity|vm_compute; reflexivity|vm_compute; reflexivity].
-Qed.
+Proof. split; [vm_compute; reflexivity|]. split; [vm_compute; reflexivity|]. example_by_evaluation e_ours3 k_theirs. Qed.
